@@ -11,13 +11,13 @@ from props import _mc as M
 from props._exprcheck import pretty
 
 ID = "C02"
-SECTIONS = ["ops", "mc"]
+SECTIONS = ["ops", "mc", "mccorr"]
 LEAN_MODULES = ["QExPy.Props.C02"]
 THEOREMS = [
     "QExPy.C02_sample_size",
     "QExPy.C02_chol2_correct", "QExPy.C02_chol2_none", "QExPy.C02_chol3_correct",
     "QExPy.C02_chol3_none", "QExPy.C02_witness_not_posdef", "QExPy.C02_chol_matrix",
-    "QExPy.C02_factor_cases",
+    "QExPy.C02_shortcut_generated", "QExPy.C02_factor_cases",
     "QExPy.C02_sample_mean_transform", "QExPy.C02_sample_cov_transform",
     "QExPy.C02_standardised_draws", "QExPy.C02_draws_carry_correlations3", "QExPy.C02_affine_exact",
     "QExPy.C02_result_def", "QExPy.C02_result_moments", "QExPy.C02_discard", "QExPy.C02_kept_le",
@@ -55,6 +55,8 @@ LEVEL_NOTE = ("partial: the RNG's distribution is trusted; agreement with popula
 TECHNIQUE = ("Lean 4 machine-checked proof over an executable model + differential correspondence on "
              "recorded random draws")
 
+RAW_SELS = ["use_std_for_uncertainty", "use_error_on_mean_for_uncertainty",
+            "use_error_weighted_mean_as_value", "use_propagated_error_for_uncertainty"]
 SIZES_QUICK = [7, 7, 100, 100, 100, 2000]
 SIZES_THOROUGH = [7, 100, 100, 1000, 2000, 10000]
 
@@ -108,6 +110,67 @@ def random_nonpd3(rng):
             return R
 
 
+CANCEL_R = [0.5, 0.25, 0.375, 0.625, 0.125, 0.6875, 0.0625]
+
+
+def cancelling3(rng):
+    """three pairwise correlations, not all zero, whose SUM is exactly 0 in binary64 (dyadic
+    numbers): (r, -r, 0) in any position, or (r1, r2, -(r1+r2)).  Returns (R, positive definite?)"""
+    while True:
+        t = rng.random()
+        if t < 0.55:
+            r = rng.choice(CANCEL_R) * rng.choice([1, -1])
+            trip = [r, -r, 0.0]
+        elif t < 0.85:
+            r1 = rng.choice(CANCEL_R) * rng.choice([1, -1])
+            r2 = rng.choice(CANCEL_R) * rng.choice([1, -1])
+            trip = [r1, r2, -(r1 + r2)]
+        else:   # cancelling AND jointly not positive definite: the fallback (warning) is required
+            r = rng.choice([0.75, 0.875, 0.9375]) * rng.choice([1, -1])
+            trip = [r, -r, 0.0]
+        rng.shuffle(trip)
+        r01, r02, r12 = trip
+        if not any(trip) or any(abs(x) >= 1 for x in trip) or r01 + r02 + r12 != 0.0:
+            continue
+        R = [[1.0, r01, r02], [r01, 1.0, r12], [r02, r12, 1.0]]
+        ev = M.min_eig(R)
+        if abs(ev) < 1e-3:
+            continue
+        return R, ev > 0
+
+
+PRE_KINDS = ["range", "range", "range-noread", "size", "size-reset", "mode", "custom", "conf",
+             "recalc", "method", "global-recalc", "read"]
+
+
+def gen_prelude(rng):
+    """a short history on the result BEFORE the judged read; each one ends in the plain default
+    configuration C02 speaks about (mean-and-std strategy, no range, the configured size)"""
+    if rng.random() < 0.6:
+        return []
+    out = []
+    for _ in range(rng.choice([1, 1, 2, 3])):
+        k = rng.choice(PRE_KINDS)
+        if k in ("range", "range-noread"):
+            a, b = sorted([rng.uniform(0.05, 0.95), rng.uniform(0.05, 0.95)])
+            if rng.random() < 0.5:
+                a, b = rng.uniform(0.3, 0.45), rng.uniform(0.55, 0.7)
+            out.append([k, a, b])
+        elif k in ("size", "size-reset"):
+            out.append([k, rng.choice([5, 9, 60])])
+        elif k == "mode":
+            out.append([k, rng.choice([0.5, 0.68, 0.9, 1.0])])
+        elif k == "custom":
+            out.append([k, round(rng.uniform(-5, 5), 2), round(rng.uniform(0, 2), 2)])
+        elif k == "conf":
+            out.append([k, rng.choice([0.5, 0.9, 0.95])])
+        elif k == "global-recalc":
+            out.append([k, rng.choice([6, 13, 40])])
+        else:
+            out.append([k])
+    return out
+
+
 def gen_overflow_case(rng, sizes):
     """exp(m)/1e10 (or its negative) with m around 709: part of the draws overflow to +-inf, which
     must be discarded like NaN"""
@@ -123,13 +186,14 @@ def gen_overflow_case(rng, sizes):
     return {"nodes": nodes, "root": len(nodes) - 1, "vals": [bits(mu)], "errs": [bits(sg)],
             "rho": [], "n_meas": 1, "ops": ops, "ref_value": bits(0.0), "kind": "overflow",
             "raw": {}, "per": per, "global": rng.choice([5, 11, 50]) if per else N,
-            "method": rng.choice(["global", "value"]), "npseed": rng.randrange(2 ** 32)}
+            "method": rng.choice(["global", "value"]), "npseed": rng.randrange(2 ** 32),
+            "pre": gen_prelude(rng)}
 
 
 def gen_case(rng, sizes, force_kind=None):
     if force_kind == "overflow":
         return gen_overflow_case(rng, sizes)
-    need3 = force_kind in ("near", "nonpd", "partial", "zerosigma")
+    need3 = force_kind in ("near", "nonpd", "partial", "zerosigma", "cancel")
     target = 3 if need3 else (2 if force_kind == "unit" else rng.choice([1, 2, 2, 3, 3, 3]))
     while True:
         c = exprgen.gen_case(rng, max_ops=5, max_meas=3, allow_pairs=False, allow_corr=False)
@@ -155,7 +219,7 @@ def gen_case(rng, sizes, force_kind=None):
     if k == 2:
         kinds = ["none", "pd", "pd", "unit"]
     if k == 3:
-        kinds = ["none", "pd", "pd", "near", "nonpd", "nonpd", "partial"]
+        kinds = ["none", "pd", "pd", "near", "nonpd", "nonpd", "partial", "cancel"]
     kind = force_kind if force_kind in kinds else rng.choice(kinds)
     if force_kind == "zerosigma":
         kind = "pd"
@@ -170,6 +234,10 @@ def gen_case(rng, sizes, force_kind=None):
     elif kind == "nonpd":
         R = random_nonpd3(rng)
         rho = [[used[i], used[j], bits(R[i][j])] for i in range(3) for j in range(i + 1, 3)]
+    elif kind == "cancel":    # off-diagonal entries non-zero but summing to exactly 0
+        R, _ = cancelling3(rng)
+        rho = [[used[i], used[j], bits(R[i][j])] for i in range(3) for j in range(i + 1, 3)
+               if R[i][j] != 0]
     elif kind == "unit":
         rho = [[used[0], used[1], bits(rng.choice([1.0, -1.0]))]]
     elif kind == "partial":   # only one pair of three correlated
@@ -189,16 +257,121 @@ def gen_case(rng, sizes, force_kind=None):
             sd = math.sqrt(sum(x * x for x in t) / (m - 1)) or 1.0
             raw[str(v)] = [bits(vals[v] + errs[v] * math.sqrt(m) * x / sd) for x in t]
     c["raw"] = raw
+    # half of the repeated-measurement sources carry individual uncertainties and a selector
+    # history (use_std / use_error_weighted_mean / use_propagated_error / ...): the draws must be
+    # centred on the value IN USE and scaled by the uncertainty IN USE, whichever statistic that is
+    rawsel = {}
+    for v in raw:
+        if rng.random() < 0.6:
+            m = len(raw[v])
+            es = [rng.choice([0.5, 1.0, 2.0, 0.25]) * abs(errs[int(v)]) * math.sqrt(m) for _ in range(m)]
+            sels = [rng.choice(RAW_SELS) for _ in range(rng.choice([1, 1, 2, 3]))]
+            rawsel[v] = {"es": [bits(e) for e in es], "sels": sels}
+    c["rawsel"] = rawsel
     N = rng.choice(sizes)
     c["per"] = N if rng.random() < 0.5 else 0
     c["global"] = rng.choice([5, 11, 50]) if c["per"] else N
     c["method"] = rng.choice(["global", "value"])
     c["npseed"] = rng.randrange(2 ** 32)
+    c["pre"] = gen_prelude(rng)
     return c
 
 
 # ---------------------------------------------------------------------------------------------
 # running the library with recorded draws
+
+def run_prelude(q, r, case):
+    """the history before the judged read; returns the (per-quantity, global) sample size that is
+    configured at the end.  Every variant ends with the mean-and-std strategy and no range."""
+    per, glob = case["per"], case["global"]
+    ev = r._DerivedValue__evaluators["monte-carlo"]
+    empty = [False]
+
+    def seen_empty():
+        # a simulation in which EVERY draw is undefined leaves an empty stored set; the library then
+        # simulates again on each access and a pair cached from the empty set (nan) can survive:
+        # such cases are skipped (counted), not judged — see notes/C02.md
+        if ev.raw_samples.size == 0 and getattr(r.error_method, "value", "") == "monte-carlo":
+            empty[0] = True
+
+    def read():
+        _ = r.value
+        seen_empty()      # checked between the two reads: the second one would simulate again
+        _ = r.error
+        seen_empty()
+    mc_on = lambda: setattr(r, "error_method", q.ErrorMethod.MONTE_CARLO)  # noqa: E731
+    for op in case.get("pre", []):
+        k = op[0]
+        if k in ("range", "range-noread"):
+            s = r.mc.samples()
+            s = s[np.isfinite(s)]
+            if len(s) >= 4 and float(np.min(s)) < float(np.max(s)):
+                lo, hi = float(np.quantile(s, op[1])), float(np.quantile(s, op[2]))
+            else:
+                lo, hi = -1.0, 1.0
+            if k == "range":
+                read()
+            r.mc.set_xrange(lo, hi)
+            if k == "range":
+                read()
+            r.mc.set_xrange()                 # range removed: plain default configuration again
+        elif k == "size":
+            r.mc.sample_size = op[1]
+            read()
+            r.mc.sample_size = per            # assigning a size (0 = follow the global one) redraws
+        elif k == "size-reset":
+            r.mc.sample_size = op[1]
+            read()
+            r.mc.reset_sample_size()          # keeps the stored simulation (C16 notes) ...
+            r.recalculate()                   # ... so the result is recalculated explicitly
+            per = 0
+        elif k == "mode":
+            r.mc.use_mode_with_confidence(op[1])
+            try:
+                read()
+            except ValueError:
+                pass      # numpy.histogram cannot bin samples that are equal up to an ulp (C16's subject)
+            r.mc.use_mean_and_std()
+        elif k == "custom":
+            r.mc.use_custom_value_and_error(op[1], op[2])
+            read()
+            r.mc.use_mean_and_std()
+        elif k == "conf":
+            r.mc.confidence = op[1]
+            read()
+        elif k == "recalc":
+            read()
+            r.recalculate()
+        elif k == "method":
+            read()
+            # the derivative method refuses some inputs on purpose (negative quadrature sum for a
+            # jointly non-positive-definite assignment): not C02's subject, the read is not judged
+            if case["method"] == "global":
+                q.set_error_method(q.ErrorMethod.DERIVATIVE)
+                try:
+                    read()
+                except Exception:  # noqa: BLE001
+                    pass
+                q.set_error_method(q.ErrorMethod.MONTE_CARLO)
+            else:
+                r.error_method = q.ErrorMethod.DERIVATIVE
+                try:
+                    read()
+                except Exception:  # noqa: BLE001
+                    pass
+                mc_on()
+        elif k == "global-recalc":
+            read()
+            glob = op[1]
+            q.set_monte_carlo_sample_size(glob)
+            r.recalculate()
+        elif k == "read":
+            read()
+            _ = r.mc.samples()
+        else:
+            raise KeyError(k)
+    return per, glob, empty[0]
+
 
 def observe(q, case):
     M.reset(q, case["global"])
@@ -212,8 +385,15 @@ def observe(q, case):
             meas = []
             for i in range(case["n_meas"]):
                 data = case.get("raw", {}).get(str(i))
-                meas.append(q.Measurement([unbits(b) for b in data]) if data
-                            else q.Measurement(vals[i], errs[i]))
+                rs = case.get("rawsel", {}).get(str(i))
+                if data and rs:
+                    mm = q.Measurement([unbits(b) for b in data], [unbits(b) for b in rs["es"]])
+                    for sel in rs["sels"]:
+                        getattr(mm, sel)()
+                    meas.append(mm)
+                else:
+                    meas.append(q.Measurement([unbits(b) for b in data]) if data
+                                else q.Measurement(vals[i], errs[i]))
             out["vals_eff"] = [float(m.value) for m in meas]
             out["errs_eff"] = [float(m.error) for m in meas]
             out["stds"] = [float(m.std) for m in meas]
@@ -225,12 +405,15 @@ def observe(q, case):
                 r.error_method = q.ErrorMethod.MONTE_CARLO
             if case["per"]:
                 r.mc.sample_size = case["per"]
+            per_now, glob_now, empty_seen = run_prelude(q, r, case)
+            out["per_final"], out["global_final"] = per_now, glob_now
+            out["config"] = [r.mc.strategy, tuple(r.mc.xrange)]
             s = r.mc.samples()
             out["ncalls"] = len(cap.calls)
             out["value"], out["error"] = float(r.value), float(r.error)
             # when every draw is undefined the stored set is empty and the library simulates
             # again on each access: value/error then belong to another simulation (case skipped)
-            out["redrawn"] = len(cap.calls) != out["ncalls"]
+            out["redrawn"] = len(cap.calls) != out["ncalls"] or empty_seen
             out["samples"] = np.array(s, dtype=float)
             out["order"] = M.source_order(q, r, meas)
             out["R"] = M.corr_matrix_impl(q, meas, out["order"])
@@ -275,14 +458,19 @@ def model_line(case, o):
     return {"cmd": "mc", "nodes": exprgen.model_nodes(case["nodes"]), "root": case["root"],
             "vals": M.bitlist(o["vals_eff"]), "errs": M.bitlist(o["errs_eff"]), "order": o["order"],
             "R": [M.bitlist(row) for row in o["R"]], "Z": Z,
-            "per": case["per"], "global": case["global"]}
+            "per": o.get("per_final", case["per"]), "global": o.get("global_final", case["global"])}
 
 
 def describe(case):
     raw = {"m" + k: [unbits(b) for b in v] for k, v in case.get("raw", {}).items()}
-    return "{} [corr={}, size per={} global={}, method={}, numpy seed={}{}]".format(
-        pretty(case), case.get("kind"), case["per"], case["global"], case["method"], case["npseed"],
-        ", repeated measurements (raw data) {}".format(raw) if raw else "")
+    for k, rs in case.get("rawsel", {}).items():
+        raw["m" + k] = {"readings": raw["m" + k], "uncertainties": [unbits(b) for b in rs["es"]],
+                        "then": rs["sels"]}
+    return "{} [corr={}, size per={} global={}, method={}, numpy seed={}{}{}]".format(
+        pretty(case), case.get("kind"), case["per"],
+        case["global"], case["method"], case["npseed"],
+        ", repeated measurements (raw data) {}".format(raw) if raw else "",
+        ", history before the judged read: {}".format(case["pre"]) if case.get("pre") else "")
 
 
 def judge(case, o, m, failures, dist):
@@ -322,6 +510,12 @@ def judge(case, o, m, failures, dist):
                              "N(0,1) array of the configured sample size per source",
                              impl=[[list(map(repr, a)), len(arr)] for a, arr in batch],
                              expected="{} arrays of {}".format(k, want), clause="sample size"))
+        return True, False
+    if o.get("config") and o["config"] != ["monte-carlo-mean-and-std", ()]:
+        failures.append(dict(base, signature="c02:config", what="after the history the quantity is "
+                             "not in the default configuration (mean-and-std strategy, no range)",
+                             impl=o["config"], expected=["monte-carlo-mean-and-std", ()],
+                             clause="default strategy"))
         return True, False
     if o["size_reported"] != want:
         failures.append(dict(base, signature="c02:sample-size-reported", what="mc.sample_size is not "
@@ -371,6 +565,22 @@ def judge(case, o, m, failures, dist):
     return True, (offdiag or discarded)
 
 
+def permuted(o):
+    """the observation re-labelled: row r of the offsets belongs to source order[pi[r]], and the
+    correlation matrix is read in that order"""
+    import itertools
+    k = len(o["order"])
+    out = []
+    for pi in itertools.permutations(range(k)):
+        if list(pi) == list(range(k)):
+            continue
+        oa = dict(o)
+        oa["order"] = [o["order"][j] for j in pi]
+        oa["R"] = [[o["R"][a][b] for b in pi] for a in pi]
+        out.append(oa)
+    return out
+
+
 def ill_conditioned(o):
     R = o.get("R")
     if not R or len(R) < 3:
@@ -402,12 +612,30 @@ def run(ctx, n_cases, sizes, ref=False, cases=None, force_kind=None):
         dist["size:{}".format(c["per"] or c["global"])] += 1
         dist["size-per-quantity" if c["per"] else "size-global"] += 1
         dist["repeated-measurement-sources:{}".format(len(c.get("raw", {})))] += 1
+        for op in c.get("pre", []):
+            dist["history-before-read:" + op[0]] += 1
+        dist["history-before-read:length-{}".format(len(c.get("pre", [])))] += 1
         for op in set(c["ops"]):
             dist["op:" + op] += 1
         if "exception" not in o and (ill_conditioned(o) or o.get("redrawn")):
             skipped += 1
             continue
-        _, nt = judge(c, o, mod.get(i, {}), failures, dist)
+        fl = []
+        _, nt = judge(c, o, mod.get(i, {}), fl, dist)
+        if fl and fl[0].get("signature", "").endswith(":samples") and len(o.get("order", [])) in (2, 3):
+            # which row of the offset matrix belongs to which source is the library's business:
+            # any CONSISTENT assignment (rows and correlation matrix permuted alike) is the same
+            # normal model — retry the model under every relabelling before accusing the code
+            alts = permuted(o)
+            res_alt = ctx.model([model_line(c, oa) for oa in alts], ref=ref)
+            for oa, ma in zip(alts, res_alt):
+                f2 = []
+                _, nt2 = judge(c, oa, ma, f2, collections.Counter())
+                if not f2:
+                    fl, nt = [], nt2
+                    dist["sources-in-another-row-order"] += 1
+                    break
+        failures += fl
         if nt:
             nontrivial.add(canon_hash([c["nodes"], c["vals"], c["errs"], c["rho"], c["per"],
                                        c["global"]]))
@@ -480,7 +708,8 @@ def correspond(ctx):
     res = run(ctx, ctx.n(400, 7000), sizes)
     # targeted: the fallback and the structures the quantifier names
     for kind, n in (("nonpd", ctx.n(30, 400)), ("unit", ctx.n(12, 150)), ("near", ctx.n(20, 300)),
-                    ("zerosigma", ctx.n(20, 300)), ("overflow", ctx.n(12, 200))):
+                    ("zerosigma", ctx.n(20, 300)), ("overflow", ctx.n(12, 200)),
+                    ("cancel", ctx.n(30, 400)), ("partial", ctx.n(15, 200))):
         r2 = run(ctx, n, sizes, force_kind=kind)
         res["evaluations"] += r2["evaluations"]
         res["nontrivial"] |= r2["nontrivial"]
@@ -552,6 +781,17 @@ def _ref_eval(case, env):
 
 
 def reference_check(case, o):
+    """numpy reference (see _reference_once); a sample mismatch is accepted when a consistent
+    relabelling of the offset rows reproduces the stored samples"""
+    f = _reference_once(case, o)
+    if f and f.get("signature", "").endswith(":samples") and len(o.get("order", [])) in (2, 3):
+        for oa in permuted(o):
+            if _reference_once(case, oa) is None:
+                return None
+    return f
+
+
+def _reference_once(case, o):
     """numpy reference of the statement: samples = finite f(mu + sigma (L Z)), mean, n-1 std;
     uncorrelated when the assignment is not positive definite.  Returns a failure or None."""
     base = {"input": describe(case), "case": case, "oracle": "independent", "kind": "violation"}
@@ -568,6 +808,14 @@ def reference_check(case, o):
     Z = np.array([arr for _, arr in last_batch(o)], dtype=float)
     if Z.shape[0] != k:
         return dict(base, signature="c02:sample-size", what="wrong number of draws")
+    want = o.get("per_final", case["per"]) or o.get("global_final", case["global"])
+    if k and Z.shape[1] != want:
+        return dict(base, signature="c02:sample-size", what="the stored simulation has {} draws per "
+                    "source, the configured sample size is {}".format(Z.shape[1], want),
+                    impl=int(Z.shape[1]), expected=want)
+    if o.get("config") and o["config"] != ["monte-carlo-mean-and-std", ()]:
+        return dict(base, signature="c02:config", what="not in the default configuration after the "
+                    "history", impl=o["config"])
     R = np.array(expected_R(case, order), dtype=float)
     np.fill_diagonal(R, 1.0)
     pd = True
@@ -622,8 +870,8 @@ def search(ctx, broken):
     sizes = [7, 100]
     n = ctx.n(300, 3000)
     tried = 0
-    for kind in (None, "nonpd", "pd", "unit"):
-        for _ in range(n // 4):
+    for kind in (None, "nonpd", "pd", "unit", "cancel", "partial"):
+        for _ in range(n // 6):
             c = gen_case(ctx.rng, sizes, force_kind=kind)
             o = observe(q, c)
             tried += 1
@@ -732,6 +980,12 @@ def statistical_supplement(ctx):
             R = [[1.0 if i == j else 0.0 for j in range(k)] for i in range(k)]
             if k >= 2 and rng.random() < 0.8:
                 R = random_pd(rng, k) if k == 3 else [[1.0, 0.0], [0.0, 1.0]]
+                if k == 3 and rng.random() < 0.4:
+                    # correlations that cancel in sum (seeded change C02-1), positive definite
+                    while True:
+                        R, pd = cancelling3(rng)
+                        if pd:
+                            break
                 if k == 2:
                     r = round(rng.uniform(-0.9, 0.9), 3)
                     R = [[1.0, r], [r, 1.0]]
